@@ -40,6 +40,9 @@ R = lambda s: s  # noqa
 def run(ctx, progs):
     ctx.explanation = EXPLANATION
     ctx.rule("DERIV1", "forwarders have the reviewed shape with pass-through arguments")
+    ctx.rule("ESI1", "iteration views: next = first piece then second, next_back = second then first; len/size_hint count both")
+    ctx.rule("CLONE1", "Iter::clone copies right<-right, left<-left")
+    ctx.rule("DEFAULT1", "default iterators are empty")
     ctx.rule("VIEW2", "the two-piece views: contiguous form ([lo,hi), empty), wrapped form ([lo,N), [0,hi)) of the same lo/hi; the interval is the occupied region; returned in order")
     ctx.rule("NONE1", "None only over edges establishing N==0 / size==0 / index>=size; Some only under index<size / size>0")
     ctx.rule("TWIN", "&/&mut accessor pairs: equal event skeletons modulo mutability [twin]")
@@ -68,6 +71,9 @@ def run(ctx, progs):
         # Iter and IterMut trim their two slices by the same algorithm (selection arithmetic itself: not decided)
         for a, b in c08.PAIRS:
             shapes.twin(ctx, "TWIN", prog, a, b, cfg, what="the shared and the mutable form of one view")
+        # iter()/iter_mut() present the same sequence as get(): front consumption takes from the first piece and only then
+        # from the second, back consumption the other way round, whatever has been consumed before (C08's ESI1)
+        c08.esi1(ctx, prog, cfg)
 
 
 def deriv1(ctx, prog, cfg):
